@@ -598,6 +598,72 @@ static void he_case(uint64_t idx, void *ctx)
     mc_outcome(idx);
 }
 
+/* ------------------------------------------------------------------ long texts: every operation once on a text of n characters, n around 127/255/256/4096/65536 */
+static const int LT[] = { 126, 127, 128, 254, 255, 256, 257, 4094, 4095, 4096, 4097, 32767, 32768, 65534, 65535, 65536, 65537 };
+#define NLT ((int) (sizeof LT / sizeof LT[0]))
+enum { LO_APP_CH, LO_PRE_CH, LO_APP_PTR, LO_PRE_PTR, LO_APP_OBJ, LO_SPLICE_MID, LO_SPLICE_PTR_END, LO_SPLICE_SHRINK, LO_REV, LO_UP, LO_DOWN, LO_TRIM, LO_SUBSTR, LO_INDEX, LO_FIND, LO_DUP_CMP, LO_CLEAR, LO_APP_SELF, NLO };
+static const char *LON[NLO] = { "append_char('q')", "prepend_char('q')", "append_from_ptr(\"xy\")", "prepend_from_ptr(\"xy\")", "append(object \"xy\")", "splice(n/2,3,\"ZZZZ\")", "splice_from_ptr(n-2,2,\"wxyz\")", "splice(1,n-2,NULL)",
+                                "reverse", "upcase", "downcase", "trim (text wrapped in blanks)", "substr(n-3,3) and substr(-n,n)", "index/rindex of the last character", "find of the 3-character suffix", "dup + cmp", "clear('c')", "append(self)" };
+static void lt_desc(uint64_t idx, void *ctx, char *b, size_t n) { (void) ctx; snprintf(b, n, CLS " of %d characters: %s", LT[idx / NLO], LON[idx % NLO]); }
+static void lt_check(T o, const char *exp, size_t el, const char *site, const char *shape, const char *what)
+{
+    if (!o->s) { FAIL(site, "model:text", shape, "%s: text pointer NULL for %zu expected characters", what, el); return; }
+    if ((size_t) o->len != el) FAIL(site, "model:len", shape, "%s: len=%ld expected %zu", what, (long) o->len, el);
+    else if (o->size <= o->len || (mc_block_size(o->s) && (IDX) mc_block_size(o->s) < o->size) || o->s[o->len]) FAIL(site, "invariant:I2", shape, "%s: len=%ld size=%ld block=%zu", what, (long) o->len, (long) o->size, mc_block_size(o->s));
+    else if (memcmp(o->s, exp, el)) { size_t d = 0; while (d < el && o->s[d] == exp[d]) d++; FAIL(site, "model:text", shape, "%s: text differs from the ideal sequence at offset %zu of %zu", what, d, el); }
+}
+static void lt_case(uint64_t idx, void *ctx)
+{
+    int n = LT[idx / NLO], op = (int) (idx % NLO); (void) ctx;
+    char shape[48]; snprintf(shape, sizeof shape, "text of %s characters", n < 256 ? "fewer than 256" : (n < 4096 ? "256..4095" : (n < 65536 ? "4096..65535" : "65536 or more")));
+    mc_set_shape(shape);
+    char site[64]; snprintf(site, sizeof site, CLS "_%.*s", (int) strcspn(LON[op], "( "), LON[op]);
+    size_t cap = (size_t) 2 * (size_t) n + 64; char *m = malloc(cap), *e = malloc(cap);
+    for (int i = 0; i < n; i++) m[i] = (char) ("abcdefghijklmnopqrstuvwxyzABCDEFGHIJKLMNOPQRSTUVWXYZ0123456789"[(i * 7 + i / 62) % 62]);
+    m[n - 1] = '#';                       /* a last character that occurs nowhere else */
+    m[n] = 0;
+    if (op == LO_TRIM) { memmove(m + 2, m, (size_t) n - 4); m[0] = ' '; m[1] = '\t'; m[n - 2] = ' '; m[n - 1] = '\n'; }
+    char *h = mc_heapstr(m);
+    T o = F(new_from_ptr)((spif_charptr_t) h); free(h);
+    if (!o) { FAIL(site, "model:return", shape, "new_from_ptr returned NULL"); free(m); free(e); return; }
+    size_t el = (size_t) n; memcpy(e, m, (size_t) n + 1);
+    switch (op) {
+    case LO_APP_CH: F(append_char)(o, 'q'); e[el++] = 'q'; break;
+    case LO_PRE_CH: F(prepend_char)(o, 'q'); memmove(e + 1, e, el); e[0] = 'q'; el++; break;
+    case LO_APP_PTR: F(append_from_ptr)(o, (spif_charptr_t) "xy"); memcpy(e + el, "xy", 2); el += 2; break;
+    case LO_PRE_PTR: F(prepend_from_ptr)(o, (spif_charptr_t) "xy"); memmove(e + 2, e, el); memcpy(e, "xy", 2); el += 2; break;
+    case LO_APP_OBJ: { T x = F(new_from_ptr)((spif_charptr_t) "xy"); F(append)(o, x); F(del)(x); memcpy(e + el, "xy", 2); el += 2; break; }
+    case LO_SPLICE_MID: { T x = F(new_from_ptr)((spif_charptr_t) "ZZZZ"); if (!F(splice)(o, (IDX) (n / 2), 3, x)) FAIL(site, "model:return", shape, "splice in range refused"); F(del)(x);
+        memmove(e + n / 2 + 4, e + n / 2 + 3, el - (size_t) (n / 2 + 3)); memcpy(e + n / 2, "ZZZZ", 4); el += 1; break; }
+    case LO_SPLICE_PTR_END: if (!F(splice_from_ptr)(o, (IDX) (n - 2), 2, (spif_charptr_t) "wxyz")) FAIL(site, "model:return", shape, "splice in range refused"); memcpy(e + n - 2, "wxyz", 4); el += 2; break;
+    case LO_SPLICE_SHRINK: if (!F(splice)(o, 1, (IDX) (n - 2), (T) NULL)) FAIL(site, "model:return", shape, "splice in range refused"); e[1] = e[n - 1]; el = 2; break;
+    case LO_REV: F(reverse)(o); for (size_t i = 0, j = el - 1; i < j; i++, j--) { char t = e[i]; e[i] = e[j]; e[j] = t; } break;
+    case LO_UP: F(upcase)(o); for (size_t i = 0; i < el; i++) e[i] = (char) toupper((unsigned char) e[i]); break;
+    case LO_DOWN: F(downcase)(o); for (size_t i = 0; i < el; i++) e[i] = (char) tolower((unsigned char) e[i]); break;
+    case LO_TRIM: F(trim)(o); memmove(e, e + 2, el - 4); el -= 4; break;
+    case LO_SUBSTR: { T a = F(substr)(o, (IDX) (n - 3), 3), b = F(substr)(o, (IDX) -n, (IDX) n);
+        if (!a || !a->s || a->len != 3 || memcmp(a->s, m + n - 3, 3)) FAIL(site, "model:return", shape, "substr(n-3,3) is not the last three characters");
+        if (!b || !b->s || (int) b->len != n || memcmp(b->s, m, (size_t) n)) FAIL(site, "model:return", shape, "substr(-n,n) is not the whole text");
+        if (a) F(del)(a); if (b) F(del)(b); break; }
+    case LO_INDEX: if ((long) F(index)(o, '#') != n - 1 || (long) F(rindex)(o, '#') != n - 1) FAIL(site, "model:return", shape, "index/rindex of the last character: %ld / %ld, expected %d", (long) F(index)(o, '#'), (long) F(rindex)(o, '#'), n - 1);
+        if ((long) F(index)(o, '\x01') != n) FAIL(site, "model:return", shape, "index of an absent character is %ld, expected the length %d", (long) F(index)(o, '\x01'), n); break;
+    case LO_FIND: { long g = (long) F(find_from_ptr)(o, (spif_charptr_t) (m + n - 3)); if (g != n - 3) FAIL(site, "model:return", shape, "find of the suffix is %ld, expected %d", g, n - 3);
+        g = (long) F(find_from_ptr)(o, (spif_charptr_t) "#absent"); if (g != n) FAIL(site, "model:return", shape, "find of an absent text is %ld, expected the length %d", g, n); break; }
+    case LO_DUP_CMP: { T d = F(dup)(o); if (!d || d == o) FAIL(site, "model:return", shape, "dup failed"); else { lt_check(d, e, el, site, shape, "copy"); if (!SPIF_CMP_IS_EQUAL(F(cmp)(o, d))) FAIL(site, "model:return", shape, "cmp(original, copy) is not EQUAL");
+        F(append_char)(d, 'z'); if (!SPIF_CMP_IS_LESS(F(cmp)(o, d))) FAIL(site, "model:return", shape, "the text does not sort before itself + 'z'"); F(del)(d); } break; }
+    case LO_CLEAR: F(clear)(o, 'c'); memset(e, 'c', el); break;
+    case LO_APP_SELF: F(append)(o, o); memcpy(e + el, e, el); el *= 2; break;
+    }
+    e[el] = 0;
+    lt_check(o, e, el, site, shape, "after the operation");
+    F(append_char)(o, '!'); e[el++] = '!'; e[el] = 0;           /* a wrong capacity left behind shows one step later */
+    lt_check(o, e, el, site, shape, "after a following append_char");
+    F(del)(o);
+    free(m); free(e);
+    mc_nontrivial();
+    mc_outcome(idx);
+}
+
 /* ------------------------------------------------------------------ sprintf: every formatted length up to a bound (internal probe/retry buffers have sizes of their own) */
 static void sp_desc(uint64_t idx, void *ctx, char *b, size_t n) { (void) ctx; static const char *f[3] = { "\"%s\" with a string of n characters", "\"%*d\" with width n", "\"<%s>\" with a string of n characters" }; snprintf(b, n, CLS " sprintf(%s), n=%d, then the same on an object that already holds text", f[idx % 3], (int) (idx / 3)); }
 static void sp_case(uint64_t idx, void *ctx)
@@ -650,6 +716,7 @@ int main(int argc, char **argv)
     g_dev = (int) mc_arg_int("dev", 2);
     if (!mc_arg("only", NULL) || !strcmp(mc_arg("only", ""), "ctor"))
         mc_e2_level(CLS "_stream_ctor", g_k * 10 + g_dev, (uint64_t) NSRC * 6 * NLENS, sc_case, sc_desc, NULL);
+    if (!mc_arg("only", NULL)) mc_e2_level(CLS "_long_text", 65537, (uint64_t) NLT * NLO, lt_case, lt_desc, NULL);
     if (!mc_arg("only", NULL)) { mc_e2_level(CLS "_stream_history", 1, 30, sh_case, sh_desc, NULL); mc_e2_level(CLS "_fd_hard_error", 1, NHE, he_case, he_desc, NULL); }
     if (!mc_arg("only", NULL)) { int maxn = (int) mc_arg_int("spmax", mc_thorough() ? 9000 : 700); mc_e2_level(CLS "_sprintf_len", maxn, (uint64_t) (maxn + 1) * 3, sp_case, sp_desc, NULL); }
     return mc_finish();
